@@ -100,20 +100,21 @@ def rule_first(ctx: Ctx) -> RuleResult:
     else:
         res.violation(["spil.sid.core.sid_resolver.sid_to_dict", "resolver dispatch"], "sid_to_dict: " + "; ".join(why), f.relpath, f.node.lineno)
     # the untyped pair
+    from ..shape import facts_at
+
     rets = [n for n in own_nodes(f.node) if isinstance(n, ast.Return)]
-    pair_ok = False
-    for r in rets:
-        if isinstance(r.value, ast.Tuple) and all(isinstance(e, ast.Constant) and e.value is None for e in r.value.elts):
-            tests = ctx.ef._dominating_tests(cfg_of(f.node), r)
-            if any(isinstance(t, ast.UnaryOp) and isinstance(t.op, ast.Not) and lab == "true" for t, lab in tests):
-                pair_ok = True
+    none_rets = [r for r in rets if isinstance(r.value, ast.Tuple) and all(isinstance(e, ast.Constant) and e.value is None for e in r.value.elts)]
     full = [r for r in rets if isinstance(r.value, ast.Tuple) and len(r.value.elts) == 2 and not all(
         isinstance(e, ast.Constant) for e in r.value.elts)]
-    if pair_ok and len(full) == 1:
-        res.ok("sid_to_dict returns", "(None, None) exactly when the resolved data is empty, else (template, data)")
+    data_var = None
+    for r in full:
+        if isinstance(r.value.elts[1], ast.Name):
+            data_var = r.value.elts[1].id
+    if none_rets and len(full) == 1 and data_var and (data_var, True) in facts_at(ctx, f, full[0]):
+        res.ok("sid_to_dict returns", "(template, data) only when the resolved data is non-empty, else (None, None)")
     else:
-        res.violation(["spil.sid.core.sid_resolver.sid_to_dict", "untyped pair"], "sid_to_dict no longer returns (None, None) exactly under "
-                                                                                  "`if not data`", f.relpath, f.node.lineno)
+        res.violation(["spil.sid.core.sid_resolver.sid_to_dict", "untyped pair"], "sid_to_dict can return a type with empty data, or no longer "
+                                                                                  "answers (None, None) for an unresolved string", f.relpath, f.node.lineno)
 
     # (b) sid_to_sid: the uri branch forces the prefix type, the plain branch passes no type
     g = p.function("spil.sid.core.sid_factory.sid_to_sid")
